@@ -63,7 +63,8 @@ func (cache *CacheLFU) GetCount(key string) (int, error) {
 
 func (cache *CacheLFU) Flush() {
 	clear(cache.keys)
-	clear(cache.entries)
+	// Drop the entries (clearing the slice would leave nil entries in the heap).
+	cache.entries = cache.entries[:0]
 }
 
 func (cache *CacheLFU) Len() int {
